@@ -183,7 +183,90 @@ def r3_no_plan_runs_everything(ctx):
             ctx.bad("no-plan|%s" % fid.split("::")[-1], fn.where(), "%s no longer answers through optimization_plan().is_some_and(..)" % fid)
 
 
-RULES = [("C18-R1", r1_skip_path), ("C18-R2", r2_every_cap_compared), ("C18-R3", r3_no_plan_runs_everything)]
+def r3b_facts_independent_of_plan(ctx):
+    """Binding facts are installed whether or not a plan exists: the limit path only loses the plan."""
+    f = ctx.need("runtime::Runtime::run_with_analysis")
+    ctx.touch(f)
+    installs = []
+    for b in sorted(f.live):
+        for s in f.blocks[b]["s"]:
+            if any(isinstance(e, dict) and e.get("f") == "facts" for e in s["lhs"]["p"]):
+                src = sh(ne(f.deep_rvalue(s["rv"])))
+                if "Some" in src and "facts" in src:
+                    installs.append(b)
+    runs = [c for c in f.calls() if c.callee in ("runtime::Runtime::run_inner", "runtime::Runtime::run", "runtime::Runtime::exec_block_with_flow")]
+    if not runs:
+        ctx.bad("facts|no-run", f.where(), "run_with_analysis no longer executes the program")
+        return
+    for c in runs:
+        if any(f.dominates(b, c.block) for b in installs):
+            ctx.ok("facts|installed-before-run", f.where(c.block), "self.facts = Some(facts) dominates %s" % c.callee.split("::")[-1])
+        else:
+            ctx.bad("facts|not-installed|%s" % c.callee.split("::")[-1], f.where(c.block),
+                    "run_with_analysis can execute the program (%s) without installing the binding facts: with no plan (the resource-limit path) names are resolved by the dynamic name fallback instead of the resolver's bindings" % c.callee.split("::")[-1])
+
+
+def tree_has(e, word):
+    return word in sh(e)
+
+
+def coupled(e, a, b):
+    """Is there a multiplication node one of whose operands mentions `a` and the other `b`?"""
+    if not isinstance(e, tuple):
+        return False
+    if e[0] == "call" and e[1].split("::")[-1] in ("saturating_mul", "wrapping_mul", "checked_mul", "mul") and len(e[2]) == 2:
+        x, y = e[2]
+        if (tree_has(x, a) and tree_has(y, b)) or (tree_has(x, b) and tree_has(y, a)):
+            return True
+    if e[0] == "bin" and e[1] in ("Mul", "MulWithOverflow"):
+        x, y = e[2], e[3]
+        if (tree_has(x, a) and tree_has(y, b)) or (tree_has(x, b) and tree_has(y, a)):
+            return True
+    for x in e[1:]:
+        if isinstance(x, tuple) and coupled(x, a, b):
+            return True
+        if isinstance(x, (list, tuple)):
+            for y in x:
+                if isinstance(y, tuple) and coupled(y, a, b):
+                    return True
+    return False
+
+
+def r2b_derived_bounds_shape(ctx):
+    """The derived work bounds grow with the product of their factors (summary: functions x locals;
+    liveness: (blocks, ops) x locals).  Idiom check on the expression tree: an additive regrouping underestimates."""
+    sb = ctx.need("analysis::limits::summary_event_bound")
+    ctx.touch(sb)
+    ret = None
+    for b in sorted(sb.live):
+        t = sb.blocks[b]["t"]
+        if t["k"] == "call" and t["dest"]["l"] == 0:
+            ret = ne(sb.deep({"copy": {"l": 0, "p": []}}))
+        for s in sb.blocks[b]["s"]:
+            if s["lhs"]["l"] == 0 and not s["lhs"]["p"]:
+                ret = ne(sb.deep_rvalue(s["rv"]))
+    if ret is None:
+        ctx.bad("summary-bound|shape", sb.where(), "cannot reconstruct the summary event bound")
+    elif coupled(ret, "functions", "locals") and coupled(ret, "functions", "functions"):
+        ctx.ok("summary-bound|functions-x-locals", sb.where(), "bound multiplies the function count with a term in locals and in functions")
+    else:
+        ctx.bad("summary-bound|not-multiplicative", sb.where(), "the summary event bound `%s` no longer multiplies the function count with the per-function growth (functions + 2*locals + 2): programs above the intended limit are analysed" % sh(ret)[:160])
+    lb = ctx.lib.fns.get("analysis::limits::liveness_event_bound::{closure#0}")
+    if lb is not None:
+        ctx.touch(lb)
+        muls = [c for c in lb.calls() if (c.callee or "").split("::")[-1] in ("saturating_mul", "wrapping_mul", "checked_mul")]
+        def mentions(c, word):
+            return any(word in sh(ne(lb.deep(a))) for a in c.args)
+        # one factor is the per-function work (a sum over the block and op counts of the zipped tuple), the other the
+        # function's local count (local_range end - start)
+        good = [c for c in muls if mentions(c, "local_range") and any("saturating_add" in sh(ne(lb.deep(a))) or "Add(" in sh(ne(lb.deep(a))) for a in c.args if "local_range" not in sh(ne(lb.deep(a))))]
+        if good:
+            ctx.ok("liveness-bound|work-x-locals", lb.where(), "per-function events multiplied by the local count")
+        else:
+            ctx.bad("liveness-bound|not-multiplicative", lb.where(), "the liveness event bound no longer multiplies per-function work with the number of locals")
+
+
+RULES = [("C18-R1", r1_skip_path), ("C18-R2", r2_every_cap_compared), ("C18-R2b", r2b_derived_bounds_shape), ("C18-R3", r3_no_plan_runs_everything), ("C18-R3b", r3b_facts_independent_of_plan)]
 
 EXPLANATION = (
     "R1: in Resolver::emit_analysis_warnings the preflight count and first_exceeded_limit(.., DEFAULT_CAPS) dominate every "
